@@ -12,6 +12,8 @@ import (
 	"runtime/debug"
 	"sort"
 	"strings"
+	"sync/atomic"
+	"time"
 )
 
 // Prop describes one property check.
@@ -51,6 +53,12 @@ type Prop struct {
 	// it (INCONCLUSIVE: no finite run decides a hang) and is restarted behind it, so that a call that never
 	// returns on one input does not hide violations on the inputs that follow. Default 150 / 900.
 	StallQuick, StallThorough int
+	// DeadlockIsViolation: the statement says that the calls return (pure functions of their inputs, no
+	// context, no harness goroutine that a call could be waiting for). A case in flight for more than 20 s
+	// whose goroutines inside the library are ALL blocked on synchronisation, unchanged over three goroutine
+	// dumps one second apart while no other case is being judged, is then a violation ("deadlock") with the
+	// dump as witness; any other stall stays INCONCLUSIVE.
+	DeadlockIsViolation bool
 	// StallClass: shorter limits (seconds) for classes whose cases are known to take microseconds.
 	StallClass map[string]int
 }
@@ -170,8 +178,9 @@ type Gen struct {
 	slot *slot
 	work chan caseItem
 
-	emitted int64 // index of the next case (generation order)
-	from    int64 // cases with a smaller index are generated but not judged (restart behind a stalled case)
+	pause   atomic.Bool // set by the stall monitor while it examines a long-running case: no new case is started
+	emitted int64       // index of the next case (generation order)
+	from    int64       // cases with a smaller index are generated but not judged (restart behind a stalled case)
 }
 
 type caseItem struct {
@@ -238,6 +247,9 @@ func (g *Gen) Emit(class string, key []byte) {
 	g.emitted++
 	if idx < g.from {
 		return
+	}
+	for g.pause.Load() {
+		time.Sleep(20 * time.Millisecond)
 	}
 	if g.work != nil {
 		g.work <- caseItem{class, append([]byte(nil), key...), idx}
